@@ -316,3 +316,106 @@ def replay_exports(index, ob, seed, saved=None):
     finally:
         enc.tempfile.TemporaryDirectory = real_td
         shutil.rmtree(base, ignore_errors=True)
+
+
+# ---- C14 / C15 -------------------------------------------------------------------------------------
+_C14_BASELINE = r'''
+import json, sys, polars as pl, rtflite as rtf
+def target(kind):
+    if kind == "multi_coloured":
+        return rtf.RTFDocument(df=[pl.DataFrame({"a": [1, 2]}), pl.DataFrame({"b": [3, 4]})],
+                               rtf_body=[rtf.RTFBody(text_color="red"), rtf.RTFBody(text_color="blue")])
+    if kind == "plain_no_page_border":
+        return rtf.RTFDocument(df=pl.DataFrame({"b": [3, 4]}), rtf_body=rtf.RTFBody(), rtf_page=rtf.RTFPage(border_last=""))
+    if kind == "coloured":
+        return rtf.RTFDocument(df=pl.DataFrame({"a": [1, 2, 3]}), rtf_body=rtf.RTFBody(text_color=["green"]), rtf_title=rtf.RTFTitle(text="t", text_color="red"))
+print(json.dumps({k: target(k).rtf_encode() for k in ("multi_coloured", "plain_no_page_border", "coloured")}))
+'''
+
+
+def replay_purity(index, ob, seed, saved=None):
+    """Histories of prior operations, then encode a target; compare with a fresh interpreter on the same tree."""
+    import json, subprocess, sys, os, polars as pl
+    rtf = index.real_module("rtflite")
+    env = dict(os.environ, PYTHONPATH=index.src)
+    p = subprocess.run([sys.executable, "-c", _C14_BASELINE], capture_output=True, text=True, env=env)
+    base = json.loads(p.stdout.strip().splitlines()[-1])
+
+    def tgt(kind, body=None):
+        if kind == "multi_coloured":
+            return rtf.RTFDocument(df=[pl.DataFrame({"a": [1, 2]}), pl.DataFrame({"b": [3, 4]})],
+                                   rtf_body=[rtf.RTFBody(text_color="red"), rtf.RTFBody(text_color="blue")])
+        if kind == "plain_no_page_border":
+            return rtf.RTFDocument(df=pl.DataFrame({"b": [3, 4]}), rtf_body=body or rtf.RTFBody(), rtf_page=rtf.RTFPage(border_last=""))
+        return rtf.RTFDocument(df=pl.DataFrame({"a": [1, 2, 3]}), rtf_body=rtf.RTFBody(text_color=["green"]), rtf_title=rtf.RTFTitle(text="t", text_color="red"))
+
+    def failing_encode():
+        d = rtf.RTFDocument(df=pl.DataFrame({"g": ["A", "B", "A"], "v": [1, 2, 3]}), rtf_body=rtf.RTFBody(group_by=["g"], text_color="red"))
+        try:
+            d.rtf_encode()
+        except ValueError:
+            return "ValueError"
+        return "no error"
+    histories = []
+    # 1. a failed encode, then documents of every kind
+    histories.append(("encode raising ValueError", lambda: failing_encode(), None))
+    # 2. encode twice
+    for kind in ("multi_coloured", "coloured", "plain_no_page_border"):
+        d = tgt(kind)
+        a, b = d.rtf_encode(), d.rtf_encode()
+        if a != b or a != base[kind]:
+            return _r(True, input={"history": [f"encode {kind} twice"]}, observed="outputs differ from each other or from a fresh interpreter")
+    failing_encode()
+    for kind in ("multi_coloured", "coloured", "plain_no_page_border"):
+        if tgt(kind).rtf_encode() != base[kind]:
+            return _r(True, input={"history": ["encode grouped document that raises ValueError", f"encode {kind}"]}, observed="output differs from a fresh interpreter")
+    # 3. shared component: multi-section document sharing its last body with a later plain document
+    shared = rtf.RTFBody()
+    rtf.RTFDocument(df=[pl.DataFrame({"a": [1, 2]}), pl.DataFrame({"b": [3, 4]})], rtf_body=[rtf.RTFBody(), shared]).rtf_encode()
+    if tgt("plain_no_page_border", shared).rtf_encode() != base["plain_no_page_border"]:
+        return _r(True, input={"history": ["encode multi-section document whose last RTFBody is shared", "encode plain document using that RTFBody"]},
+                  observed="output differs from a fresh interpreter")
+    # 4. the caller's DataFrame
+    df = pl.DataFrame({"g": ["A", "A", "B"], "v": [1, 2, 3]})
+    snap = df.clone()
+    rtf.RTFDocument(df=df, rtf_body=rtf.RTFBody(group_by=["g"])).rtf_encode()
+    if not df.equals(snap):
+        return _r(True, input={"history": ["encode grouped document"]}, observed="caller DataFrame modified")
+    return _r(False)
+
+
+def replay_threads(index, ob, seed, saved=None):
+    """Forced schedule A.set . B.set . A.render . B.render around the real set_document_context."""
+    import threading, polars as pl
+    rtf = index.real_module("rtflite")
+    csm = index.real_module("rtflite.services.color_service")
+
+    def doc(c):
+        return rtf.RTFDocument(df=pl.DataFrame({"a": [1, 2]}), rtf_body=rtf.RTFBody(text_color=[c]))
+    seq = {c: doc(c).rtf_encode() for c in ("red", "blue")}
+    a_set, b_set = threading.Event(), threading.Event()
+    orig = csm.ColorService.set_document_context
+    out = {}
+
+    def patched(self, document=None, used_colors=None):
+        r = orig(self, document, used_colors)
+        me = threading.current_thread().name
+        if me == "A":
+            a_set.set()
+            b_set.wait(5)
+        elif me == "B":
+            a_set.wait(5)
+            b_set.set()
+        return r
+    csm.ColorService.set_document_context = patched
+    try:
+        ts = [threading.Thread(target=lambda c=c: out.__setitem__(c, doc(c).rtf_encode()), name=n) for n, c in (("A", "red"), ("B", "blue"))]
+        [t.start() for t in ts]
+        [t.join(20) for t in ts]
+    finally:
+        csm.ColorService.set_document_context = orig
+    bad = [c for c in seq if out.get(c) != seq[c]]
+    if bad:
+        return _r(True, input={"schedule": "A.set_document_context ; B.set_document_context ; A renders ; B renders", "documents": ["red", "blue"]},
+                  observed=f"thread results differ from sequential results for {bad}")
+    return _r(False)
